@@ -800,7 +800,7 @@ func ruleParamStore(c *Ctx, r *Report, fs []*FuncInfo, floor int) {
 		}
 		collect(f.Decl.Recv)
 		collect(f.Decl.Type.Params)
-		if len(shared) == 0 {
+		if len(shared) == 0 && !hasInterfaceParam(f) {
 			continue
 		}
 		bad := 0
@@ -825,7 +825,26 @@ func ruleParamStore(c *Ctx, r *Report, fs []*FuncInfo, floor int) {
 				if rootObj == nil {
 					continue
 				}
-				if ty, ok := shared[rootObj]; ok {
+				ty, ok := shared[rootObj]
+				if !ok && rootParamOfObj(f, rootObj) {
+					// a parameter of interface type (variadic options, `any`): what is stored
+					// through is judged by the static type of the value the store goes through.
+					var base ast.Expr
+					switch b := l.(type) {
+					case *ast.SelectorExpr:
+						base = b.X
+					case *ast.StarExpr:
+						base = b.X
+					}
+					if base != nil {
+						if tv, has := info.Types[base]; has && tv.Type != nil {
+							if sty := sharedInputType(tv.Type); sty != "" {
+								ty, ok = sty, true
+							}
+						}
+					}
+				}
+				if ok {
 					if why := builderParam(c, f, rootObj, 0); why != "" {
 						r.OK(fmt.Sprintf("%s:builder-param(%s)", f.Name, rootObj.Name()), c.Pos(l.Pos()), why)
 						continue
@@ -879,6 +898,23 @@ func storeRoot(f *FuncInfo, e ast.Expr, depth int) types.Object {
 				if s.Value != nil && ObjOf(info, s.Value) == obj {
 					if ro := storeRoot(f, s.X, depth+1); ro != nil {
 						res = ro
+					}
+				}
+			case *ast.TypeSwitchStmt:
+				// switch v := o.(type): v in each clause is an implicit object aliasing o.
+				as, ok := s.Assign.(*ast.AssignStmt)
+				if !ok || len(as.Rhs) != 1 {
+					return true
+				}
+				ta, ok := as.Rhs[0].(*ast.TypeAssertExpr)
+				if !ok {
+					return true
+				}
+				for _, cc := range s.Body.List {
+					if info.Implicits[cc] == obj {
+						if ro := storeRoot(f, ta.X, depth+1); ro != nil {
+							res = ro
+						}
 					}
 				}
 			}
@@ -1127,4 +1163,22 @@ func convTargetKind(f *FuncInfo, e ast.Expr) string {
 		})
 	}
 	return res
+}
+
+// hasInterfaceParam: f has a parameter whose type is an interface or a slice of interfaces.
+func hasInterfaceParam(f *FuncInfo) bool {
+	sig, ok := f.Obj.Type().(*types.Signature)
+	if !ok {
+		return false
+	}
+	for i := 0; i < sig.Params().Len(); i++ {
+		t := sig.Params().At(i).Type()
+		if sl, ok := t.Underlying().(*types.Slice); ok {
+			t = sl.Elem()
+		}
+		if _, ok := t.Underlying().(*types.Interface); ok {
+			return true
+		}
+	}
+	return false
 }
